@@ -333,7 +333,14 @@ func c06Interrupted(rep *ev.Reporter, sets map[string]func() []*grl.Rule) {
 // c06Nested: overlapping runs on one engine value, every nesting point enumerated.
 func c06Nested(rep *ev.Reporter, sets map[string]func() []*grl.Rule, maxMax uint64) {
 	type rs = []*grl.Rule
-	outers := map[string]func() rs{
+	outers := c06NestedOuters()
+	inners := []string{"never", "count1", "count3", "loop", "completeAt1", "retractChain"}
+	nestedRuns(rep, "C06", c06Judge, outers, sets, inners, maxMax)
+}
+
+func c06NestedOuters() map[string]func() []*grl.Rule {
+	type rs = []*grl.Rule
+	return map[string]func() rs{
 		"countA3": func() rs { return rs{grl.R("o1", nil, "F.I < 3", "F.I = F.I + 1", "F.Act(1)")} },
 		"loopA":   func() rs { return rs{grl.R("o1", nil, "F.I >= 0", "F.I2 = F.I2 + 1", "F.Act(1)")} },
 		"condC2":  func() rs { return rs{grl.R("o1", nil, "F.Chk(F.I) && F.I < 2", "F.I = F.I + 1")} },
@@ -344,7 +351,11 @@ func c06Nested(rep *ev.Reporter, sets map[string]func() []*grl.Rule, maxMax uint
 			return rs{grl.R("a", grl.Sal(5), "F.I < 1", "F.I = F.I + 1", "F.Act(1)"), grl.R("b", nil, "F.I2 < 2 && F.Chk(F.I2)", "F.I2 = F.I2 + 1")}
 		},
 	}
-	inners := []string{"never", "count1", "count3", "loop", "completeAt1", "retractChain"}
+}
+
+// nestedRuns: overlapping runs on ONE engine value, judged by the property's own judge (prop: its id) and compared
+// with the scenario run on two separate engine values.
+func nestedRuns(rep *ev.Reporter, prop string, judge func(c *Case, tr *hx.Trace, w *ref.World) []Verdict, outers map[string]func() []*grl.Rule, sets map[string]func() []*grl.Rule, inners []string, maxMax uint64) {
 	var onames []string
 	for k := range outers {
 		onames = append(onames, k)
@@ -368,7 +379,7 @@ func c06Nested(rep *ev.Reporter, sets map[string]func() []*grl.Rule, maxMax uint
 		ob, err1 := hx.Build(hx.NewProgram(outers[j.outer](), grl.Style{}))
 		ib, err2 := hx.Build(hx.NewProgram(sets[j.inner](), grl.Style{}))
 		if err1 != nil || err2 != nil {
-			rep.Violation("harness:build-failed:c06nested", fmt.Sprint(err1, err2), nil)
+			rep.Violation("harness:build-failed:nested", fmt.Sprint(err1, err2), nil)
 			return
 		}
 		oc := &Case{Rules: ob.Prog.Rules}
@@ -415,7 +426,7 @@ func c06Nested(rep *ev.Reporter, sets map[string]func() []*grl.Rule, maxMax uint
 				}
 			}
 			for at := 1; at <= probes; at++ {
-				caseID := fmt.Sprintf("c06/nested/%s/%s/max%d/at%d/o%d.%d", j.outer, j.inner, j.mc, at, oOrd, iOrd)
+				caseID := fmt.Sprintf("%s/nested/%s/%s/max%d/at%d/o%d.%d", strings.ToLower(prop), j.outer, j.inner, j.mc, at, oOrd, iOrd)
 				if rep.ReplayFilter != "" && rep.ReplayFilter != caseID {
 					continue
 				}
@@ -431,7 +442,7 @@ func c06Nested(rep *ev.Reporter, sets map[string]func() []*grl.Rule, maxMax uint
 						c    *Case
 						tr   *hx.Trace
 					}{{"outer", oc, otr}, {"inner", ic, itr}} {
-						for _, v := range c06Judge(x.c, x.tr, nil) {
+						for _, v := range judge(x.c, x.tr, nil) {
 							if v.Sig != "" {
 								return v.Sig + ":overlapping-runs-on-one-engine:" + x.role, fmt.Sprintf("%s run (the inner run was started by probe invocation %d of the outer run on the SAME engine value, MaxCycle=%d): %s\n  %s events: %s", x.role, at, j.mc, v.What, x.role, strings.Join(x.tr.Events, " "))
 							}
@@ -441,10 +452,10 @@ func c06Nested(rep *ev.Reporter, sets map[string]func() []*grl.Rule, maxMax uint
 						return "", "" // without order control two runs of one scenario may break salience ties differently
 					}
 					if a, b := hx.Evs(otr.Events), hx.Evs(rotr.Events); a != b {
-						return "C06:run-differs-when-engine-value-is-shared:outer", fmt.Sprintf("outer run with the inner run on the same engine: %s\n  with the inner run on another engine value: %s", a, b)
+						return prop + ":run-differs-when-engine-value-is-shared:outer", fmt.Sprintf("outer run with the inner run on the same engine: %s\n  with the inner run on another engine value: %s", a, b)
 					}
 					if a, b := hx.Evs(itr.Events), hx.Evs(ritr.Events); a != b {
-						return "C06:run-differs-when-engine-value-is-shared:inner", fmt.Sprintf("inner run on the engine value of the outer run: %s\n  on its own engine value: %s", a, b)
+						return prop + ":run-differs-when-engine-value-is-shared:inner", fmt.Sprintf("inner run on the engine value of the outer run: %s\n  on its own engine value: %s", a, b)
 					}
 					return "", ""
 				}
@@ -453,7 +464,7 @@ func c06Nested(rep *ev.Reporter, sets map[string]func() []*grl.Rule, maxMax uint
 				atomic.AddInt64(&nontrivial, 1)
 				if sig != "" {
 					if s2, _ := judgeOnce(); s2 != sig {
-						fmt.Printf("HARNESS-NONDETERMINISM property=C06 case=%s sig=%s\n", caseID, sig)
+						fmt.Printf("HARNESS-NONDETERMINISM property=%s case=%s sig=%s\n", prop, caseID, sig)
 						continue
 					}
 					rep.Violation(sig, what+"\n  case: "+caseID+"\n  outer grl: "+ob.Prog.Text+"\n  inner grl: "+ib.Prog.Text, map[string]interface{}{"case": caseID, "outer": ob.Prog.Text, "inner": ib.Prog.Text, "max_cycle": j.mc, "nest_at_probe": at, "outer_order": oOrd, "inner_order": iOrd})
